@@ -130,14 +130,20 @@ class TrackWorld(World):
         "real": ["tracklib.core.Track (feature table, evaluator, sequence operators)", "tracklib.core.Obs",
                  "tracklib.core.ObsTime", "tracklib.core.operators", "tracklib.core.utils (makeRPN, addListToAF)",
                  "tracklib.algo.cinematics.computeAbsCurv / estimate_speed", "tracklib.algo.analytics (ds, speed)"],
-        "stub": ["stdout of tracklib: discarded"]}
+        "stub": ["stdout of tracklib: discarded",
+                 "user callables handed to addAnalyticalFeature / APPLY: wrapped so that they raise at a seeded invocation"]}
     STATE_MEASURE = "per session: (size class 0,1,2,3,non-power-of-two,power-of-two; number of listed features; time-sorted; abs_curv cached; speed cached)"
     ASSUMPTIONS = [
-        "in-memory world: no disk, clock or scheduler exists on these code paths; the only injected fault is "
-        "a request the API documents as refused",
+        "in-memory world: no disk, clock or scheduler exists on these code paths; injected faults are requests the "
+        "API refuses, user-supplied callables that raise at a seeded invocation, and operators provoked into "
+        "refusing values outside their domain -- never pre-emption inside library code",
         "sessions interleave at whole-API-call granularity",
-        "tracks derived by slicing share Obs objects with their source by design; they are checked when created "
-        "and then dropped",
+        "values of operators without a one-line definition, positions after in-place transformations, timestamps "
+        "after addSeconds and the state of tracks that went through another subsystem (resampling, noise, "
+        "simplification, * and **) are adopted from the real objects, not judged",
+        "tracks derived by slicing share Obs objects with their source by design; when such a track lives on as a "
+        "session, both only take steps that move observations around",
+        "atomicity of a refused call is not demanded (its output column is adopted)",
         "the reference model and oracles in /verif/sim/worlds/track.py are correct"]
 
     # ------------------------------------------------------------------ config
